@@ -1237,7 +1237,7 @@ class Sym:
         if tgt and tgt in self.fx.bodies:
             b = self.fx.bodies[tgt]
             mut_ok = not mut_idx or (self.inline_mut and not b.get("impl_trait") and all(vals[i][0] in ("place", "pl") for i in mut_idx)
-                                     and not any(re.match(r"^&mut [A-Z]\w*$", (p_.get("ty") or "")) for p_ in b["params"]))
+                                     and not (any(re.match(r"^&mut [A-Z]\w*$", (p_.get("ty") or "")) for p_ in b["params"]) and self.sink_leaf(b)))
             if b["krate"] in self.krates and not self.opaque(tgt) and tgt not in self.stack \
                     and len(self.stack) <= self.inline_depth and mut_ok and (not has_loop(b) or self.inline_mut):
                 # generic helper: remember what its type parameters stand for at this call site (type-qualified callee names
@@ -1312,6 +1312,23 @@ class Sym:
             if pl is not None:
                 s = self.write_place(s, pl, ("after", t, i))
         return [(s, (VAL, t))]
+
+    def sink_leaf(self, b):
+        """a helper with a generic `&mut W` sink parameter that only talks to std (`write_aligned`): kept opaque, rules summarise
+        it by its emission shape. A helper that forwards the sink to other local functions (`write_sections`) is plumbing and is
+        evaluated through."""
+        c = b.get("_sink_leaf")
+        if c is None:
+            c = True
+            for x in F.walk(b["body"]):
+                if x.get("k") == "Call" and "fn" in x:
+                    tgt = self.fx.by_dp.get(x["fn"].get("dp"))
+                    if tgt in self.fx.bodies and self.fx.bodies[tgt]["krate"] in self.krates and tgt != b["path"] \
+                            and any(re.match(r"^&mut [A-Z]\w*$", (p_.get("ty") or "")) for p_ in self.fx.bodies[tgt]["params"]):
+                        c = False
+                        break
+            b["_sink_leaf"] = c
+        return c
 
     def apply(self, fval, args, st, n):
         """apply a function value (closure / fn ref) to argument terms"""
